@@ -19,16 +19,16 @@ import (
 // (bookkeeping), C25 (introduction gate) and C22 (framing).
 
 type peerSim struct {
-	c     *sim.Ctx
-	w     *world
-	ns    *netSim
-	n     *netNode
-	chain []model.Block
-	peers []*chaosPeer          // all peers ever attached
-	seen  map[*chaosPeer]int    // frames already looked at
-	intro map[*chaosPeer]bool   // we sent an introduction the rules accept
-	pend  map[string]bool       // outgoing attempts not yet resolved
-	prev  map[string]daemon.VerifConn // previous snapshot by addr
+	c       *sim.Ctx
+	w       *world
+	ns      *netSim
+	n       *netNode
+	chain   []model.Block
+	peers   []*chaosPeer                // all peers ever attached
+	seen    map[*chaosPeer]int          // frames already looked at
+	intro   map[*chaosPeer]bool         // we sent an introduction the rules accept
+	pend    map[string]bool             // outgoing attempts not yet resolved
+	prev    map[string]daemon.VerifConn // previous snapshot by addr
 	reasons map[*link]error
 }
 
@@ -168,6 +168,11 @@ func (s *peerSim) drawIntro(forceValid bool) introSpec {
 	ex = binary.LittleEndian.AppendUint32(ex, uint32(len(ua.s)))
 	ex = append(ex, ua.s...)
 	tail := 3 // genesis hash present
+	if forceValid {
+		// both legal forms of a conforming introduction: with the genesis hash (optionally followed by bytes a
+		// later protocol version may define) and, as peers before v0.26 send it, ending right after the user agent
+		tail = []int{3, 0, 5}[t.Pick("intro-tail-valid", 3, 1, 1)]
+	}
 	if !forceValid {
 		tail = t.Pick("intro-tail", 3, 3, 1, 1, 1, 1, 1)
 	}
